@@ -55,6 +55,7 @@ func c03tail(c *core.Ctx, r *core.Reporter, rule string) {
 
 // tailExceptions: one construct each.
 var tailExceptions = map[string]string{
+	"slip.SimpleObject|Tail #1": "the Go bridge's marker of a map entry: (key . value) whatever the value, which ObjectToBag and Simplify use to tell a JSON object from an array; building the entry with Cons made {a:[1 2]} come back as [[a 1 2]] (my own repair 4ea46cc, reverted for this site by 9a0277e, C18.mappair)",
 	"pkg/watch.(periodic).details|Tail #3": "the (op . <operation>) pair of the watch protocol's description of a periodic: it is only printed onto the connection, where (op . (f x)) and (op f x) are the same text for the client's reader to take the cdr of; TestServerConnections pins the dotted form",
 }
 
